@@ -399,10 +399,13 @@ func (c *ext5Stream) queryShared(ctx context.Context, m *dns.Msg) (bool, string)
 // --- DoH over HTTP/2 and HTTP/3
 
 type ext5HTTP struct {
-	mk     func() (*http.Client, func())
-	shared *http.Client
-	closeF func()
-	mu     sync.Mutex
+	mk func() (*http.Client, func())
+	// mkFresh, if set, makes the clients of fresh queries (doh-mixed: parked
+	// requests over HTTP/2, new ones over HTTP/3)
+	mkFresh func() (*http.Client, func())
+	shared  *http.Client
+	closeF  func()
+	mu      sync.Mutex
 }
 
 func (c *ext5HTTP) Close() {
@@ -417,7 +420,11 @@ func (c *ext5HTTP) Query(ctx context.Context, m *dns.Msg, fresh bool) (bool, str
 	var cl *http.Client
 	if fresh {
 		var cf func()
-		cl, cf = c.mk()
+		if c.mkFresh != nil {
+			cl, cf = c.mkFresh()
+		} else {
+			cl, cf = c.mk()
+		}
 		defer cf()
 	} else {
 		c.mu.Lock()
@@ -581,8 +588,8 @@ type ext5Lane struct {
 	name    string
 	witness string // network of the begin witness: "tcp" or "udp"
 	// quic: the UDP socket is handed to a quic.Transport, which does not close
-	// a socket it has not created: no refusal is expected, so the witness
-	// falls back to a time bound earlier.
+	// a socket it has not created: no refusal is expected there, so a server
+	// without a TCP listener (DoQ) falls back to a time bound earlier.
 	quic   bool
 	mk     func(h dnsserver.Handler) dnsserver.Server
 	client func(srv dnsserver.Server) (ext5Client, error)
@@ -673,6 +680,11 @@ func ext5Lanes(tlsConf *tls.Config) []ext5Lane {
 		}},
 		{"doh-h3", "udp", true, mkHTTPS, func(srv dnsserver.Server) (ext5Client, error) {
 			return ext5H3Client(srv.LocalUDPAddr().String(), tlsConf), nil
+		}},
+		{"doh-mixed", "tcp", false, mkHTTPS, func(srv dnsserver.Server) (ext5Client, error) {
+			c := ext5H2Client(srv.LocalTCPAddr().String(), tlsConf)
+			c.mkFresh = ext5H3Client(srv.LocalUDPAddr().String(), tlsConf).mk
+			return c, nil
 		}},
 		{"doq", "udp", true, mkQUIC, func(srv dnsserver.Server) (ext5Client, error) {
 			return &ext5DoQ{addr: srv.LocalUDPAddr().String(), tlsConf: tlsConf}, nil
@@ -811,11 +823,19 @@ func ext5RunWorld(t *testing.T, lane ext5Lane, sc ext5Scen, rng *rand.Rand) (ev 
 		}
 		w.emitL(map[string]any{"ev": "Start", "res": res, "err": ext5Err(err)})
 	}
-	var waddr string
+	// the lane's own address (for the port observation) and the address whose
+	// refusal of connections proves that shutdown() has closed the listeners:
+	// the TCP listener wherever the server has one (it is closed in the same
+	// critical section, and probing it does not wake up a UDP read loop)
+	var laddr string
 	if lane.witness == "tcp" {
-		waddr = srv.LocalTCPAddr().String()
+		laddr = srv.LocalTCPAddr().String()
 	} else {
-		waddr = srv.LocalUDPAddr().String()
+		laddr = srv.LocalUDPAddr().String()
+	}
+	wnet, waddr := lane.witness, laddr
+	if a := srv.LocalTCPAddr(); a != nil {
+		wnet, waddr = "tcp", a.String()
 	}
 
 	var cl ext5Client
@@ -959,10 +979,10 @@ func ext5RunWorld(t *testing.T, lane ext5Lane, sc ext5Scen, rng *rand.Rand) (ev 
 	if sc.k > 0 {
 		// the listeners are closed: ShutdownBegin has happened
 		bound := 2 * time.Second
-		if lane.quic {
+		if lane.quic && wnet == "udp" {
 			bound = 500 * time.Millisecond
 		}
-		wk, wms := ext5Witness(lane.witness, waddr, bound)
+		wk, wms := ext5Witness(wnet, waddr, bound)
 		w.emitL(map[string]any{"ev": "BeginWitness", "kind": wk, "ms": wms})
 		// a new query while Shutdown is waiting
 		_, done := send("mid", false, true, 0, ext5Short)
@@ -1049,7 +1069,7 @@ func ext5RunWorld(t *testing.T, lane ext5Lane, sc ext5Scen, rng *rand.Rand) (ev 
 	ccancel()
 	clients.Wait()
 
-	portFree := ext5PortFree(lane.witness, waddr)
+	portFree := ext5PortFree(lane.witness, laddr)
 	if sc.restart {
 		// only recorded: Start on a server that has been shut down
 		err := srv.Start(bg)
